@@ -11,7 +11,13 @@ RULE = ("scripted loopback HTTP and HTTPS peers (raw TCP, run-time self-signed c
         "close, not JSON, endless, stalling mid-body) and every transport fault / status (close, reset, stall, late, 201, "
         "400, 401, 404, 500, 503) at every request of a probe (elastic: /, /_aliases; docker: HEAD /_ping, GET /_ping, "
         "/info, /version), refused / never-accepting targets, scheme mismatch, timeouts <= 0, cancellation before / during "
-        "each request / after the end, plus seeded random combinations; non-trivial = the peer accepted connections; "
+        "each request / after the end, plus seeded random combinations; also the empty object ({} / whitespace / 401 {}) for "
+        "elastic, peers that honour Accept-Encoding: gzip, and (thorough / failing-input search) answers later than the "
+        "scanners' built-in default timeouts inside a larger configured one; an overlapping-scans stage: ONE docker and ONE "
+        "elastic scanner each shared by 20 goroutines against 24 peers per kind (good APIs serving their own names, half of "
+        "them gzip-capable, non-JSON, 404, slow first responses) with DOCKER_HOST / DOCKER_API_VERSION in the environment "
+        "naming a decoy daemon no probe is aimed at, 3000 probes per kind each judged on its own (thorough: 60000 and a "
+        "-race build); end-to-end runs of the sx binary; non-trivial = the peer accepted connections; "
         "distinct by (class, scheme, slots)")
 
 SLACK_MS = 80
@@ -42,7 +48,7 @@ def load_ms(o):
     jitter_ms (largest overshoot of a goroutine sleeping 5 ms: wake-up latency) and 20 ms per unit of cpu_slowdown - 1
     (wall / CPU time of a thread burning 2 ms of CPU: the scheduler serves sleepers promptly even when CPU-bound work --
     TLS, JSON, 2 MB bodies -- crawls, so wake-up latency alone underestimates starvation).  ~0-3 on a quiet machine."""
-    return max(o.get("jitter_ms") or 0, 20.0 * max(0.0, (o.get("cpu_slowdown") or 1.0) - 1.0))
+    return max(o.get("jitter_ms") or 0, min(200.0, 20.0 * max(0.0, (o.get("cpu_slowdown") or 1.0) - 1.0)))
 
 
 def jitter_slack(o):
@@ -50,7 +56,7 @@ def jitter_slack(o):
     makes several requests with a handful of wake-ups each, so the duration comparison with the MODEL grants four of them
     on top of the fixed slack -- nothing on a quiet machine, the starvation delay on a loaded one.  The property's own
     bound keeps its fixed slack."""
-    return int(4 * min(load_ms(o), 300))
+    return int(4 * min(o.get("jitter_ms") or 0, 300))
 
 
 def model_slack_of(o):
@@ -462,9 +468,10 @@ def run_overlap(ctx, probes, ms, tag="overlap"):
             path = ctx.write_replay("overlap-%s" % r["kind"], {
                 "property": "C10", "what": why, "key": key,
                 "input": {"overlap": True, "kind": r["kind"], "goroutines": r["goroutines"], "timeout_ms": r["timeout_ms"],
-                          "seed": r["seed"], "probes": max(3000, r["probes"]),
+                          "seed": r["seed"], "probes": max(3000, r["probes"]), "environment": r.get("environment", ""),
                           "peers": [{"target": ("tcp://%s:%d" if r["kind"] == "docker" else "%s:%d") % (p["ip"], p["port"]),
-                                     "behaviour": p["behaviour"], "slow_first_response_ms": p["slow_ms"], "serves_name": p["tag"]}
+                                     "behaviour": p["behaviour"], "slow_first_response_ms": p["slow_ms"], "serves_name": p["tag"],
+                                     "honours_accept_encoding_gzip": p.get("gzip", False)}
                                     for p in r["peers"]],
                           "note": "peers listen on fresh ports at every run; the replay rebuilds the same mix"},
                 "observed": {"probes": r["probes"], "judged": r["judged"], "misjudged": r["bad"]},
@@ -473,15 +480,14 @@ def run_overlap(ctx, probes, ms, tag="overlap"):
     return rows
 
 
-# A data race that the UNCHANGED docker scanner has and that does not touch the property: every Scan calls
-# moby.WithHost, which calls sockets.ConfigureTransport on the scanner's shared *http.Transport and re-assigns
-# tr.Proxy / tr.Dial (always to equivalent values) while other workers' requests read them.
-BENIGN_RACES = ["sockets.ConfigureTransport"]
+# No report is tolerated.  (Before the fix "docker scan ignores the proxy environment" every Scan let moby reconfigure the
+# scanner's SHARED http.Transport -- sockets.ConfigureTransport re-assigning tr.Proxy / tr.Dial -- which the race detector
+# reported; since the fix every probe works on its own clone of the transport.)
+BENIGN_RACES = []
 
 
 def race_overlap(ctx):
-    """thorough: the overlapping-scans stage under the Go race detector; every report except the known benign one is a
-    finding"""
+    """thorough: the overlapping-scans stage under the Go race detector; every report is a finding"""
     if not ctx.harness_build("c10", race=True):
         return
     exe = os.path.join(verif.HBIN, "c10-race")
@@ -496,8 +502,7 @@ def race_overlap(ctx):
     reports = [b for b in out.split("==================") if "WARNING: DATA RACE" in b]
     benign = [b for b in reports if any(k in b for k in BENIGN_RACES)]
     other = [b for b in reports if b not in benign]
-    ctx.info.append("race-detector run of the overlapping-scans stage: %d reports, %d of them the known benign "
-                    "http.Transport reconfiguration by moby.WithHost (present in the unchanged code)" % (len(reports), len(benign)))
+    ctx.info.append("race-detector run of the overlapping-scans stage: %d reports" % len(reports))
     if other:
         path = ctx.write_replay("race-c10", {"property": "C10", "what": "data race reported by the Go race detector when one "
                                              "scanner is shared by 20 goroutines", "report": other[0][:4000],
